@@ -44,7 +44,7 @@ func (e1Engine) Gen(prop string, seed int64, tier string) *Plan {
 	}
 	if prop == "C11" {
 		p.Cfg["col"] = 0
-		p.Cfg["enc"] = 1 + r.IntN(2) // 1 doc-level, 2 field-level
+		p.Cfg["enc"] = 1 + r.IntN(2)         // 1 doc-level, 2 field-level
 		p.Cfg["keyless"] = r.IntN(1<<n) &^ 1 // node 0 always holds keys
 		p.Cfg["sign"] = 0
 	}
@@ -516,7 +516,6 @@ func (r *e1Run) pid(home string) string {
 	}
 	return r.p.Prop
 }
-
 
 // historyClass classifies the DAG situation of (node, doc) for finding identity.
 func (r *e1Run) historyClass(node, slot int) string {
@@ -1039,7 +1038,6 @@ func (r *e1Run) checkConverged(step int) {
 	}
 	r.res.Stats["converged_checked"]++
 }
-
 
 func (r *e1Run) divergeClass() string {
 	// classify by whether any node ever had heads at different heights
